@@ -347,6 +347,12 @@ def get_bs_cached(n, sigma=1.0, reg=0.0, correction=True, basis_dir='', dr=1.0,
                     # saved as a .npy file
                 try:
                     M, Mc = np.load(full_path(best_file))
+                    # size according to the file name
+                    f_n = int(best_file.split('_')[-2])
+                    if M.shape != (f_n, _nbf(f_n, sigma)) or \
+                       Mc.shape != M.shape:
+                        M = None
+                        raise ValueError('wrong basis shape')
                     # crop if loaded larger
                     if M.shape != (n, nbf):
                         M = M[:n, :nbf]
